@@ -27,6 +27,15 @@ def gmServable (s : Suite) : Bool :=
   | some (_, ecdhe, _) => !ecdhe
   | none => false
 
+/-- GMSSL client, `makeClientHelloGM` (repaired): a configured id is put into the ClientHello when it has a row in
+    `gmCipherSuites` and that row is not an ECDHE suite.  The client side of the ECDHE-SM2 key exchange cannot be
+    completed with any peer (`ecdheKeyAgreementGM.processServerKeyExchange` refuses every named_curve), so this is
+    also the predicate "the client can complete the key exchange of suite `s`". -/
+def gmClientKx (s : Suite) : Bool :=
+  match gmRow s with
+  | some (_, ecdhe, _) => !ecdhe
+  | none => false
+
 inductive CertKind | rsa | ec
 deriving DecidableEq, Repr
 
